@@ -1,6 +1,6 @@
 module verifmc
 
-go 1.19
+go 1.21
 
 require github.com/tdewolff/parse/v2 v2.0.0
 
